@@ -13,7 +13,7 @@ namespace Skeleton
 inductive Mode | r | w
   deriving DecidableEq, Repr
 
-inductive Ev | read | write | unlock | hook
+inductive Ev | read | write | unlock | hook | xml | acquire
   deriving DecidableEq, Repr
 
 inductive Sk
@@ -37,6 +37,8 @@ def allowed : Ev → Held → Bool
   | .write, h => h == some .w
   | .unlock, _ => true
   | .hook, h => h == some .w
+  | .xml, _ => true              -- the request body is parsed (`_read_xml_request_body`); ordering is C19's subject
+  | .acquire, _ => true          -- a window opens (recorded by the semantics, never emitted by the translator)
 
 def noUnlock : Sk → Bool
   | .ev .unlock => false
@@ -118,16 +120,53 @@ inductive Exec : Sk → Held → Trace → Outcome → Prop
   | starRet (a h h1 ta) : Exec a h ta (.returned h1) → Exec (.star a) h ta (.returned h1)
   | starRaise (a h h1 ta) : Exec a h ta (.raised h1) → Exec (.star a) h ta (.raised h1)
   | lockDone (m body h h1 t) : Exec body (some m) t (.done h1) →
-      Exec (.lock m body) h (t ++ (if m = .w then [(.hook, h1)] else [])) (.done none)
+      Exec (.lock m body) h ((.acquire, h) :: t ++ (if m = .w then [(.hook, h1)] else [])) (.done none)
   | lockRet (m body h h1 t) : Exec body (some m) t (.returned h1) →
-      Exec (.lock m body) h (t ++ (if m = .w then [(.hook, h1)] else [])) (.returned none)
-  | lockRaise (m body h h1 t) : Exec body (some m) t (.raised h1) → Exec (.lock m body) h t (.raised none)
+      Exec (.lock m body) h ((.acquire, h) :: t ++ (if m = .w then [(.hook, h1)] else [])) (.returned none)
+  | lockRaise (m body h h1 t) : Exec body (some m) t (.raised h1) → Exec (.lock m body) h ((.acquire, h) :: t) (.raised none)
   | tryOk (b hd h t o) : Exec b h t o → (∀ x, o ≠ .raised x) → Exec (.try_ b hd) h t o
   | tryCaught (b hd h h1 t t' o) : Exec b h t (.raised h1) → Exec hd h1 t' o → Exec (.try_ b hd) h (t ++ t') o
   | tryUncaught (b hd h h1 t) : Exec b h t (.raised h1) → Exec (.try_ b hd) h t (.raised h1)
   | fnDone (b h h1 t) : Exec b h t (.done h1) → Exec (.fn b) h t (.done h1)
   | fnRet (b h h1 t) : Exec b h t (.returned h1) → Exec (.fn b) h t (.done h1)
   | fnRaise (b h h1 t) : Exec b h t (.raised h1) → Exec (.fn b) h t (.raised h1)
+
+/-! ### the request body is parsed before storage is touched (C19) -/
+
+/-- events that touch the storage or its lock -/
+def touch : Ev → Bool
+  | .xml => false
+  | _ => true
+
+def mayTouch : Sk → Bool
+  | .ev e => touch e
+  | .seq a b => mayTouch a || mayTouch b
+  | .alt a b => mayTouch a || mayTouch b
+  | .star a => mayTouch a
+  | .lock _ _ => true
+  | .try_ b h => mayTouch b || mayTouch h
+  | .fn b => mayTouch b
+  | _ => false
+
+def hasXml : Sk → Bool
+  | .ev .xml => true
+  | .seq a b => hasXml a || hasXml b
+  | .alt a b => hasXml a || hasXml b
+  | .star a => hasXml a
+  | .lock _ b => hasXml b
+  | .try_ b h => hasXml b || hasXml h
+  | .fn b => hasXml b
+  | _ => false
+
+/-- static check: no parse of the request body can follow a touch of the storage or happen inside a window -/
+def xmlFirst : Sk → Bool
+  | .seq a b => xmlFirst a && xmlFirst b && !(mayTouch a && hasXml b)
+  | .alt a b => xmlFirst a && xmlFirst b
+  | .star a => xmlFirst a && !(mayTouch a && hasXml a)
+  | .lock _ b => !hasXml b
+  | .try_ b h => xmlFirst b && xmlFirst h && !(mayTouch b && hasXml h)
+  | .fn b => xmlFirst b
+  | _ => true
 
 /-! ### window sequences (for the run-time correspondence) -/
 
